@@ -40,33 +40,34 @@ def getItem (s : St) (k : Key) : Iid × St :=
 
 def setLocks (s : St) (i : Iid) (v : Nat) : St := { s with locks := fun j => if j = i then v else s.locks j }
 
-inductive Step : St → St → Prop where
+/-- the Boolean index says whether the step is a *progress* step (everything except a new `Lock` call and purge). -/
+inductive Step : Bool → St → St → Prop where
   | callLock (s : St) (g : Nat) (k : Key) (h : s.pcs[g]? = some (.idle)) :
-      Step s { s with pcs := s.pcs.set g (.sendAcq k) }
+      Step false s { s with pcs := s.pcs.set g (.sendAcq k) }
   | rdvAcq (s : St) (g : Nat) (k : Key) (h : s.pcs[g]? = some (.sendAcq k)) (hm : s.mgr = .idle) :
-      Step s { s with pcs := s.pcs.set g (.needItem k), mgr := .acq k }
+      Step true s { s with pcs := s.pcs.set g (.needItem k), mgr := .acq k }
   | mgrAcqGrant (s : St) (k : Key) (hm : s.mgr = .acq k) (h0 : (getItem s k).2.locks (getItem s k).1 = 0) :
-      Step s { (getItem s k).2 with mgr := .sendTok (getItem s k).1 k true }
+      Step true s { (getItem s k).2 with mgr := .sendTok (getItem s k).1 k true }
   | mgrAcqQueue (s : St) (k : Key) (hm : s.mgr = .acq k) (h0 : (getItem s k).2.locks (getItem s k).1 ≠ 0) :
-      Step s { setLocks (getItem s k).2 (getItem s k).1 ((getItem s k).2.locks (getItem s k).1 + 1) with mgr := .idle }
+      Step true s { setLocks (getItem s k).2 (getItem s k).1 ((getItem s k).2.locks (getItem s k).1 + 1) with mgr := .idle }
   | gGetItem (s : St) (g : Nat) (k : Key) (h : s.pcs[g]? = some (.needItem k)) :
-      Step s { (getItem s k).2 with pcs := s.pcs.set g (.recvTok (getItem s k).1 k) }
+      Step true s { (getItem s k).2 with pcs := s.pcs.set g (.recvTok (getItem s k).1 k) }
   | rdvTok (s : St) (g : Nat) (i : Iid) (k k' : Key) (b : Bool)
       (h : s.pcs[g]? = some (.recvTok i k)) (hm : s.mgr = .sendTok i k' b) :
-      Step s { (if b then setLocks s i (s.locks i + 1) else s) with pcs := s.pcs.set g (.holding k), mgr := .idle }
+      Step true s { (if b then setLocks s i (s.locks i + 1) else s) with pcs := s.pcs.set g (.holding k), mgr := .idle }
   | callUnlock (s : St) (g : Nat) (k : Key) (h : s.pcs[g]? = some (.holding k)) :
-      Step s { s with pcs := s.pcs.set g (.sendRel k) }
+      Step true s { s with pcs := s.pcs.set g (.sendRel k) }
   | rdvRel (s : St) (g : Nat) (k : Key) (h : s.pcs[g]? = some (.sendRel k)) (hm : s.mgr = .idle) :
-      Step s { s with pcs := s.pcs.set g .idle, mgr := .rel k }
+      Step true s { s with pcs := s.pcs.set g .idle, mgr := .rel k }
   | mgrRelNone (s : St) (k : Key) (hm : s.mgr = .rel k) (h0 : (getItem s k).2.locks (getItem s k).1 = 0) :
-      Step s { (getItem s k).2 with mgr := .idle }
+      Step true s { (getItem s k).2 with mgr := .idle }
   | mgrRelLast (s : St) (k : Key) (hm : s.mgr = .rel k) (h0 : (getItem s k).2.locks (getItem s k).1 = 1) :
-      Step s { setLocks (getItem s k).2 (getItem s k).1 0 with mgr := .idle }
+      Step true s { setLocks (getItem s k).2 (getItem s k).1 0 with mgr := .idle }
   | mgrRelHand (s : St) (k : Key) (hm : s.mgr = .rel k) (h0 : 1 < (getItem s k).2.locks (getItem s k).1) :
-      Step s { setLocks (getItem s k).2 (getItem s k).1 ((getItem s k).2.locks (getItem s k).1 - 1) with
+      Step true s { setLocks (getItem s k).2 (getItem s k).1 ((getItem s k).2.locks (getItem s k).1 - 1) with
                mgr := .sendTok (getItem s k).1 k false }
   | purge (s : St) (k : Key) (i : Iid) (hm : s.mgr = .idle) (ht : s.table k = some i) (h0 : s.locks i = 0) :
-      Step s { s with table := fun k' => if k' = k then none else s.table k' }
+      Step false s { s with table := fun k' => if k' = k then none else s.table k' }
 
 /-- goroutine is registered on key `k` (in flight, waiting, holding or releasing). -/
 def isReg (k : Key) : GPc → Bool
